@@ -18,6 +18,8 @@ Decides the tables and laws the slicer's backward traversal rests on:
                  (map_instructions_to_lines), which are appended from the traversal state only.
 Not decided: completeness of the traversal itself (stack simulation across frames, exceptions, inlined
 comprehensions, in-place container construction with LIST_APPEND / MAP_ADD).
+Further clauses (added later): C09.frame-flag: the scalar per-code-object flag of the slicing context is
+computed from the current instruction's state only (a value accumulated in one scalar mixes nested frames).
 """
 
 from __future__ import annotations
@@ -78,6 +80,8 @@ def _methods_table(repo, v):
 
 def check(ctx) -> None:
     repo = ctx.repo
+    ctx.rule("C09.frame-flag", "the scalar per-code-object flag of the slicing context is computed from the current instruction's state only (no self-referential accumulation across frames)", floor=2)
+    _frame_flag(ctx, repo)
     ctx.rule("C09.groups", "TABLE-AGREE: instrumented <=> traced; traced memory opcodes are uses / definitions; STORE_NAMES = the stores; predicates read their table", floor=60)
     ctx.rule("C09.stackfx", "TABLE-AGREE: stack_effects == dis.stack_effect for the running interpreter (documented deviations aside)", floor=150)
     ctx.rule("C09.kill", "ABSINT: gen/kill laws of check_explicit_data_dependency over representative contexts", floor=8)
@@ -367,3 +371,25 @@ def _lines(ctx, repo) -> None:
     flows = any(isinstance(s, ast.Assign) and norm(s.targets[0]) == "statement_checked_lines" and "map_instructions_to_lines" in norm(s.value) and "statement_slice" in norm(s.value) for s in own_nodes(cs))
     upd = any(isinstance(c, ast.Call) and norm(c.func) == "checked_lines_ids.update" and norm(c.args[0]) == "statement_checked_lines" for c in own_nodes(cs))
     ctx.check("C09.lines", cs, flows and upd, "compute_statement_checked_lines no longer reports exactly map_instructions_to_lines(slice of the statement)", what="checked lines of a statement = lines of its slice", stmt="[checked lines flow]")
+
+
+def _frame_flag(ctx, repo) -> None:
+    """SlicingContext.code_object_dependent is one scalar for all frames the backward walk passes through: a value that
+    accumulates over instructions (`flag = flag or ...`) mixes the frames - what was gathered for an outer callee is
+    overwritten when the walk enters and leaves a nested callee.  Every assignment computes the flag from the current
+    instruction's state only (a per-frame accumulation needs a stack, which would not be this field)."""
+    fn = repo.try_func(DS, "DynamicSlicer.slice")
+    if fn is None:
+        raise AnalysisError("anchor vanished: DynamicSlicer.slice")
+    ctx.analysed(fn)
+    n = 0
+    for st in own_nodes(fn):
+        if isinstance(st, ast.AugAssign) and isinstance(st.target, ast.Attribute) and st.target.attr == "code_object_dependent":
+            n += 1
+            ctx.fail("C09.frame-flag", st, f"`{norm(st)[:80]}` accumulates the per-code-object flag in a scalar", stmt="[flag] augmented assignment")
+        if isinstance(st, ast.Assign) and any(isinstance(t, ast.Attribute) and t.attr == "code_object_dependent" for t in st.targets):
+            n += 1
+            reads = [x for x in ast.walk(st.value) if isinstance(x, ast.Attribute) and x.attr == "code_object_dependent"]
+            ctx.check("C09.frame-flag", st, not reads, f"`{norm(st)[:90]}` computes the flag from its own previous value: the scalar is shared by all frames of the backward walk, so after a nested callee was entered and left the outer callee looks as if it had contributed nothing - its CALL is dropped from the slice although instructions inside it are in the slice (checked lines lose executed call lines)", what="flag computed from the current instruction's state only", stmt=f"[flag] {norm(st)[:50]}")
+    if n < 2:
+        raise AnalysisError(f"C09.frame-flag: only {n} assignments of code_object_dependent in DynamicSlicer.slice (confirmed by reading: 2)")
